@@ -134,6 +134,18 @@ def gen_project(rng: random.Random, size: str = 'small') -> T.Dict[str, T.Any]:
                 e['gsrcs'].append(g['name'])
         if have_subp and rng.random() < 0.4:
             e['subp'] = True
+        # objects taken over from an earlier static library instead of linking it
+        cands = [p for p in libs if p['libkind'] == 'static_library' and p['name'] not in e['link_with'] and p['name'] not in e['link_whole']
+                 and not p.get('extract_from')]
+        if cands and rng.random() < 0.25:
+            src_lib = rng.choice(cands)
+            e['extract_from'] = src_lib['name']
+            # the extracted objects still need what their library linked against
+            for n_ in src_lib['link_with'] + src_lib['link_whole']:
+                if n_ not in e['link_with'] and n_ not in e['link_whole']:
+                    e['link_with'].append(n_)
+            if src_lib.get('subp'):
+                e['subp'] = True
         ents.append(e)
         libs.append(e)
         pos += 1
@@ -145,6 +157,12 @@ def gen_project(rng: random.Random, size: str = 'small') -> T.Dict[str, T.Any]:
             deps.append(d)
     used_gsrc = {g for l in libs for g in l['gsrcs']}
     used_pair = {p for l in libs for p in l['pairs']}
+    gtool = None
+    if rng.random() < 0.35:
+        # a code generator that is itself built by the project
+        gtool = {'kind': 'gtool', 'name': 'gentool', 'seg': seg_for(pos, order_total)}
+        ents.append(gtool)
+        pos += 1
     exes = []
     for k in range(n_exe):
         use = rng.sample(hdrs, min(len(hdrs), rng.randint(0, 2)))
@@ -162,6 +180,9 @@ def gen_project(rng: random.Random, size: str = 'small') -> T.Dict[str, T.Any]:
             if g['name'] not in used_gsrc and rng.random() < 0.7:
                 e['gsrcs'].append(g['name'])
                 used_gsrc.add(g['name'])
+        if gtool is not None and not gtool.get('used') and rng.random() < 0.8:
+            e['gtool_src'] = f'bt{k}'
+            gtool['used'] = True
         ents.append(e)
         exes.append(e)
         pos += 1
@@ -254,9 +275,12 @@ def render(spec: T.Dict[str, T.Any], sd: str) -> None:
         for g in e.get('gsrcs', []):
             lines.append(f'int {g}_f(void);')
             terms.append(f'{g}_f()')
-        for l in e.get('link_with', []) + e.get('link_whole', []):
+        for l in e.get('link_with', []) + e.get('link_whole', []) + ([e['extract_from']] if e.get('extract_from') else []):
             lines.append(f'int {l}_f(void);')
             terms.append(f'{l}_f()')
+        if e.get('gtool_src'):
+            lines.append(f"int {e['gtool_src']}_f(void);")
+            terms.append(f"{e['gtool_src']}_f()")
         for d in e.get('deps', []):
             for h in byname[d]['hdrs']:
                 lines.append(f'#include "{hdr_file(h)}"')
@@ -337,6 +361,12 @@ def render(spec: T.Dict[str, T.Any], sd: str) -> None:
             if e.get('subp'):
                 depobjs.append('subp_dep')
             kw = ['include_directories: inc']
+            if e.get('extract_from'):
+                kw.append(f"objects: [{e['extract_from']}.extract_all_objects(recursive: false)]")
+            if e.get('gtool_src'):
+                with open(os.path.join(srcdir, f"{e['gtool_src']}.tpl2"), 'w') as f:
+                    f.write(f"int {e['gtool_src']}_f(void) {{ return 4; }}\n")
+                srcs.append(f"gen2.process('{e['gtool_src']}.tpl2')")
             if e.get('link_with'):
                 kw.append('link_with: [' + ', '.join(e['link_with']) + ']')
             if e.get('link_whole'):
@@ -345,6 +375,12 @@ def render(spec: T.Dict[str, T.Any], sd: str) -> None:
                 kw.append('dependencies: [' + ', '.join(depobjs) + ']')
             func = e['libkind'] if k == 'lib' else 'executable'
             out.append(f"{n} = {func}('{n}', {', '.join(srcs)}, {', '.join(kw)})\n")
+        elif k == 'gtool':
+            with open(os.path.join(srcdir, 'gentool.c'), 'w') as f:
+                f.write('#include <stdio.h>\nint main(int argc, char **argv) { if (argc < 3) return 2; FILE *i = fopen(argv[1], "r"); FILE *o = fopen(argv[2], "w"); '
+                        'if (!i || !o) return 3; int c; while ((c = fgetc(i)) != EOF) fputc(c, o); fclose(i); fclose(o); return 0; }\n')
+            out.append("gentool = executable('gentool', 'gentool.c', native: true)\n"
+                       "gen2 = generator(gentool, output: '@BASENAME@_bt.c', arguments: ['@INPUT@', '@OUTPUT@'])\n")
         elif k == 'dep':
             kw = []
             if e['hdrs']:
